@@ -22,6 +22,22 @@
 // superior, support for such are not universal.
 #define NNI_ARG_UNUSED(x) ((void) x)
 
+#ifdef NNG_VERIF
+// Verification hook H5 (add-only): named delay points on the close / create
+// paths of sockets, contexts, endpoints and pipes.  The harness may install
+// a function that sleeps at chosen points to widen race windows; when no
+// function is installed the points do nothing.  See /verif/DESIGN.md.
+extern void (*nng_verif_delay_hook)(int point, void *obj);
+#define NNI_VERIF_DELAY(pt, obj)                              \
+	do {                                                  \
+		if (nng_verif_delay_hook != NULL) {           \
+			nng_verif_delay_hook((pt), (obj));    \
+		}                                             \
+	} while (0)
+#else
+#define NNI_VERIF_DELAY(pt, obj)
+#endif
+
 // nni_panic is called to abort the program on an internal fault.
 // It should only be called when there is a bug (either in NNG itself,
 // or if the user's program gave invalid inputs.)
